@@ -40,6 +40,8 @@ for d in sorted(glob.glob(os.path.join(root, "seeded", "*"))):
         r = json.load(open(df))["results"]
         det = "; ".join("%s: %s" % (x["property"], {True: "caught" + (" (no-failing-input-found)" if any("no-failing-input-found" in v for v in x.get("violations", [])) and not any(v and "no-failing-input-found" not in v for v in x.get("violations", [])) else ""), False: "MISSED", None: "no check"}[x["caught"]]) for x in r)
     s = (m.get("summary", "")[:260] + " — needs: " + m.get("needs_to_manifest", "")[:200]).replace("|", "/").replace("\n", " ")
+    if m.get("retired"):
+        det += " — RETIRED: " + m["retired"][:220].replace("|", "/")
     out.append("| %s | %s | %s | %s | %s |\n" % (os.path.basename(d), m.get("breaks"), s, conf, det + (" — " + m["lead_note"] if m.get("lead_note") else "")))
 out.append("\n" + "-" * 99 + "\n\n## 12. Known findings and repaired defects (known_findings.json)\n\n")
 k = json.load(open(os.path.join(root, "known_findings.json")))
